@@ -2472,13 +2472,27 @@ def _ev_result(ctx, v):
     return None
 
 
+def _rif_interface(u):
+    """None while read_include_filename has the interface the rules model (returns the name, reports the form through a bool *), else the reason"""
+    from ..build import require_signature
+    try:
+        require_signature(u, 'read_include_filename', ['Token **', 'Token *', 'bool *'], 'char *')
+    except AnalysisBroken as e:
+        return str(e)
+    return None
+
+
 def r108(P, u, T, rep, dres):
     rep.rule('R10.8', 'a quoted #include probes the directory of the including file before the include path, an angle-bracket one does not; #include_next continues the '
              'previous search; `#pragma once` is keyed by the path string include_file is later called with; -include files are tokenised in option order in '
              'front of the main file, each taken as given (working directory) if it exists there, else from the include path, else diagnosed; '
              '-D/-U act in command-line order', floor=FLOORS['R10.8'])
     fnline = u.fn('preprocess2').line
-    if 'include' not in dres or 'include_next' not in dres:
+    sig_why = _rif_interface(u)
+    if sig_why:
+        # the arms are judged through the contract of read_include_filename (name returned, form through the flag parameter)
+        rep.undecided('R10.8', '%s:preprocess2:include-arms' % U, sig_why)
+    elif 'include' not in dres or 'include_next' not in dres:
         rep.undecided('R10.8', '%s:preprocess2:include-arms' % U, 'the #include / #include_next arms of the dispatcher could not be followed')
     else:
         it, res = dres['include']
@@ -2597,6 +2611,9 @@ def _r1016_computed_include(P, u, T, rep):
     if fn not in u.functions:
         rep.undecided('R10.16', '%s:%s:vanished' % (U, fn), 'read_include_filename vanished')
         return
+    if _rif_interface(u):
+        rep.undecided('R10.16', '%s:%s:interface' % (U, fn), _rif_interface(u))
+        return
     where = '%s:%d' % (U, u.fn(fn).line)
     forms = {
         'angle': [('<', 'TK_PUNCT'), ('a', 'TK_IDENT'), ('/', 'TK_PUNCT'), ('7', 'TK_PP_NUM'), ('.', 'TK_PUNCT'), ('h', 'TK_IDENT'), ('>', 'TK_PUNCT')],
@@ -2709,6 +2726,9 @@ def _r108_filename(P, u, T, rep):
     fn = 'read_include_filename'
     if fn not in u.functions:
         rep.undecided('R10.8', '%s:%s:vanished' % (U, fn), 'read_include_filename vanished')
+        return
+    if _rif_interface(u):
+        rep.undecided('R10.8', '%s:%s:interface' % (U, fn), _rif_interface(u))
         return
     where = '%s:%d' % (U, u.fn(fn).line)
     forms = {
